@@ -81,22 +81,20 @@ theorem PSim.bind_same {α β : Type} {Err : α → Prop} (p : Prog β) {k k' : 
   PSim.unit (fun _ => p) (fun _ => False) k k' (IsUnit.fixed _) hk fun _ hb => hb.elim
 
 /-- What the run under the smaller limits looks like from its first overflow on: the unit that overflowed only gives
-back descriptors (`rel`), then the loop continues (`k`) - with a run that is again built from units matching those of
-an unbounded continuation `k'` - and whatever happens the run ends in `Err`. -/
-def Stopped (env : PEnv) (orc : EvalOracles) (L L' : Limits) {α : Type} (Err : α → Prop) (p : Prog α) : Prop :=
-  ∃ (β : Type) (rel : Prog β) (k k' : β → Prog α), p = rel.bind k ∧ Calls Rel rel ∧ All (fun b => All Err (k b)) rel ∧
-    ∀ b, PSim env orc L L' Err (k b) (k' b)
+back descriptors (`rel`), then the loop goes on with the next unit (`k`; by `PSim` that is again a run built from units),
+and whatever happens from there the run ends in `Err`. -/
+def Stopped {α : Type} (Err : α → Prop) (p : Prog α) : Prop :=
+  ∃ (β : Type) (rel : Prog β) (k : β → Prog α), p = rel.bind k ∧ Calls Rel rel ∧ All (fun b => All Err (k b)) rel
 
 /-- Runs built from the same units are in lock step up to the first overflow. -/
 theorem PSim.sim (hle : L ≤ L') (hs : Sane L) {α : Type} {Err : α → Prop} {p q : Prog α} (h : PSim env orc L L' Err p q) :
-    Sim (Stopped env orc L L' Err) p q := by
+    Sim (Stopped Err) p q := by
   induction h with
   | ret a => exact Sim.ret a
   | unit F E k k' hu hk he ih =>
     refine (hu.sim hle hs).bind ih ?_
     intro p' hp'
-    exact ⟨_, p', k, k', rfl, hp'.1, hp'.2.mono he, hk⟩
-
+    exact ⟨_, p', k, rfl, hp'.1, hp'.2.mono he⟩
 
 /-! ## the error flag is never cleared -/
 
